@@ -73,6 +73,102 @@ PREFIX_FAMILIES = [
 ]
 
 
+# LOOK-ALIKE VALUES x TYPE LISTS.  "every attribute that is an INSTANCE of a listed type" is decided on the object being
+# saved; the file holds normalised values (a NumPy scalar is stored as a JSON number and loads as a Python number, a Path
+# as a flagged string, an all-numeric list as an array).  Families of values that look alike across that boundary:
+# per family the Python-side types, the NumPy / pathlib-side types (to be listed against the values of the OTHER side)
+PY_PRIMS = ["builtins.int", "builtins.float", "builtins.bool", "builtins.str", "builtins.complex", "builtins.list",
+            "builtins.tuple", "builtins.dict", "builtins.set"]
+NP_TYPES = ["numpy.ndarray", "numpy.generic", "numpy.number", "numpy.integer", "numpy.signedinteger", "numpy.unsignedinteger",
+            "numpy.floating", "numpy.inexact", "numpy.complexfloating", "numpy.bool", "numpy.int8", "numpy.int32", "numpy.int64",
+            "numpy.uint8", "numpy.uint64", "numpy.float16", "numpy.float32", "numpy.float64", "numpy.complex64",
+            "numpy.complex128", "pathlib.Path", "pathlib.PurePath", "pathlib.PosixPath"]
+NONE_TYPE = "builtins.NoneType"
+LOOKALIKE = {
+    "int": (["builtins.int"], ["numpy.integer", "numpy.signedinteger", "numpy.unsignedinteger", "numpy.int64", "numpy.int32", "numpy.number", "numpy.generic"]),
+    "float": (["builtins.float"], ["numpy.floating", "numpy.float64", "numpy.float32", "numpy.inexact", "numpy.number", "numpy.generic"]),
+    "bool": (["builtins.bool", "builtins.int"], ["numpy.bool", "numpy.generic"]),
+    "complex": (["builtins.complex"], ["numpy.complexfloating", "numpy.complex128", "numpy.complex64", "numpy.inexact"]),
+    "str": (["builtins.str"], ["pathlib.Path", "pathlib.PurePath", "pathlib.PosixPath"]),
+    "seq": (["builtins.list", "builtins.tuple", "builtins.set"], ["numpy.ndarray"]),
+    "none": ([NONE_TYPE], ["numpy.generic"]),
+}
+INT_DT = ["int8", "int16", "int32", "int64", "uint8", "uint16", "uint32", "uint64"]
+
+
+def gen_lookalike_value(r):
+    """(family, side, spec): side 'py' = Python value, 'np' = NumPy scalar / pathlib.Path, 'arr' = 0-d (or 1-d) array"""
+    fam = r.choice(["int", "int", "float", "float", "bool", "bool", "complex", "str", "seq", "none"])
+    side = r.choice(["py", "np", "np", "arr"])
+    sd = r.randrange(10 ** 6)
+    if fam == "int":
+        dt = r.choice(INT_DT)
+        v = {"py": ["int", r.choice([0, 1, -3, 41, 256, 2 ** 40])], "np": ["np", dt, r.choice([0, 1, 7, 41, 100])],
+             "arr": ["arr", dt, [], sd, "C"]}[side]
+    elif fam == "float":
+        dt = r.choice(["float16", "float32", "float32", "float64"])
+        v = {"py": ["float", r.choice([0.75, -2.5, 0.0, 1e22]).hex()], "np": ["np", dt, r.choice([0.5, 1.5, -2.0, 0.125]).hex()],
+             "arr": ["arr", dt, [], sd, "C"]}[side]
+    elif fam == "bool":
+        v = {"py": ["bool", r.random() < 0.5], "np": ["np", "bool", r.random() < 0.5], "arr": ["arr", "bool", [], sd, "C"]}[side]
+    elif fam == "complex":
+        dt = r.choice(["complex64", "complex128"])
+        v = {"py": ["complex", r.choice([0.0, 1.5]), r.choice([1.0, -0.5])], "np": ["np", dt, [r.choice([0.0, 1.5]), r.choice([1.0, -0.5])]],
+             "arr": ["arr", dt, [], sd, "C"]}[side]
+    elif fam == "str":
+        s = r.choice(["a/b", "rel/x.txt", "x", "data dir/y"])
+        v = {"py": ["str", s], "np": ["path", s], "arr": ["arr", "<U3", [], sd, "C"]}[side]
+    elif fam == "seq":
+        items = [["int", r.randint(-9, 9)] for _ in range(r.randint(0, 3))]
+        if side == "py":
+            v = [r.choice(["list", "tuple", "set"]), items if r.random() < 0.7 else [["str", "s"], ["int", 1]]]
+        elif side == "np":
+            v = ["dict", [["k", ["int", 1]]]] if r.random() < 0.3 else [r.choice(["list", "tuple"]), [["np", "int16", 3], ["np", "float32", (0.5).hex()]]]
+        else:
+            v = ["arr", r.choice(["int64", "float64", "bool"]), r.choice([[3], [0], [2, 2]]), sd, "C"]
+    else:
+        side, v = "py", ["none"]
+    return fam, side, v
+
+
+def gen_lookalike_graph(r, depth, width, acc, path=""):
+    """attribute-nested graph whose attribute values are look-alike values (80%) or ordinary ones; acc collects
+    (path, family, side) of every look-alike attribute, at every level"""
+    fields = []
+    for nm in r.sample(NAMES, r.randint(3, width)):
+        if depth > 0 and r.random() < 0.3:
+            v = gen_lookalike_graph(r, depth - 1, width, acc, path + nm + ".")
+        elif r.random() < 0.8:
+            fam, side, v = gen_lookalike_value(r)
+            acc.append((path + nm, fam, side))
+        else:
+            v = G.gen_value(r, 1, False, 3, allow_obj=False, torch_ok=False)
+        fields.append([nm, v])
+    return ["obj", r.choice(["NodeA", "NodeB", "NodeC"]), fields]
+
+
+def gen_lookalike_types(r, acc):
+    """a type list AGAINST the look-alikes present: for 1-3 attributes of the graph a type of the OTHER side of their
+    family (NumPy scalar / 0-d array present -> the Python type; Python value present -> a NumPy type; str <-> Path;
+    list <-> ndarray), plus 0-2 types drawn from all Python primitive and NumPy / pathlib types"""
+    out = []
+    np_scal = [a for a in acc if a[2] == "np" and a[1] in ("int", "float", "bool", "complex")]     # true NumPy scalars
+    np_side = [a for a in acc if a[2] != "py" and a not in np_scal]                               # 0-d arrays, Paths, arrays
+    py_side = [a for a in acc if a[2] == "py"]
+    for pool_a, idx, p in ((np_scal, 0, 0.85), (np_side, 0, 0.4), (py_side, 1, 0.5)):
+        if pool_a and r.random() < p:
+            _, fam, _ = r.choice(pool_a)
+            out.append(r.choice(LOOKALIKE[fam][idx]))
+    out += r.sample(PY_PRIMS + NP_TYPES, r.choice([0, 1, 1, 2]))
+    if not out:
+        out = r.sample(PY_PRIMS, 1)
+    seen = []
+    for t in out:
+        if t not in seen:
+            seen.append(t)
+    return seen
+
+
 def _strict_prefix_pairs(names):
     """(short, long) pairs among `names` with long starting with short"""
     return [(s, l) for s in names for l in names if l != s and l.startswith(s)]
@@ -241,6 +337,28 @@ def gen_cases(ctx: Ctx):
                       "save_eq_load": (not st_s) and (not st_l) and not cont_obj and (j % 2 == 0 or bool(pool_n)), "container_objects": cont_obj,
                       "prefix_names": bool(pool_n),
                       "mode14": mode, "dispatch": False, "abc_types": abc, "hybrid_root": hyb_root, "hybrid_registry_names": reg})
+    # LOOK-ALIKE cases (appended: the stream of the cases above is unchanged): type lists of Python primitive types and
+    # NumPy / pathlib types against graphs holding the look-alike values of the other side, at every nesting level;
+    # types at save time (oracle + model), repeated at load time (oracle + model: a recorded list that is repeated changes
+    # nothing), at load time only / other types at load time (the property text has no clause: model only)
+    for j in range(ctx.budget(16, 320)):
+        acc = []
+        spec = gen_lookalike_graph(r, r.choice([0, 1, 1, 2, 3]), r.choice([4, 5, 6]), acc)
+        present = sorted(names_in(spec, set()))
+        tmode = ["save", "both-same", "save", "load", "both-other"][j % 5]
+        types = gen_lookalike_types(r, acc)
+        st_s = types if tmode != "load" else []
+        st_l = {"save": [], "both-same": list(types), "load": types + ([NONE_TYPE] if r.random() < 0.3 else []),
+                "both-other": gen_lookalike_types(r, acc) + ([NONE_TYPE] if r.random() < 0.3 else [])}[tmode]
+        nmode = r.choice(["none", "none", "save", "load", "both"])
+        pickn = lambda: r.sample(present, r.randint(1, min(2, len(present)))) + r.sample(ABSENT, r.choice([0, 0, 1]))  # noqa: E731
+        cases.append({"id": "t%04d" % j, "prop": "C14", "label": "graph", "spec": spec, "cfg": G.gen_cfg(r),
+                      "skip_save_names": pickn() if nmode in ("save", "both") else [], "skip_save_types": st_s,
+                      "skip_load_names": pickn() if nmode in ("load", "both") else [], "skip_load_types": st_l,
+                      "load_types_repeat_saved": tmode == "both-same",
+                      "save_eq_load": False, "container_objects": False, "prefix_names": False, "mode14": "types-" + tmode + "/names-" + nmode,
+                      "dispatch": False, "abc_types": False, "hybrid_root": False, "hybrid_registry_names": [],
+                      "lookalike": tmode})
     return cases
 
 
@@ -260,7 +378,10 @@ def run(ctx: Ctx):
         "type; every 7th case 1-2 types at LOAD time: correspondence only) x (store, compression, "
         "str|Path, mode); every 11th graph has objects inside containers (outside the quantifier: asymmetry recorded only); "
         "distinct by (spec, skip lists, configuration), non-trivial when at least one present name or type is skipped; "
-        "plus Ptychography.save's own skip on a toy reconstruction")
+        "plus Ptychography.save's own skip on a toy reconstruction; plus 16 (thorough 320) LOOK-ALIKE cases: graphs (depth 0-3) whose attributes hold Python numbers / "
+        "str / None / containers next to NumPy scalars of every dtype, pathlib.Path and 0-d arrays of the same families x type lists of Python primitive "
+        "and NumPy / pathlib types, 1-2 chosen against look-alikes present, at save time (oracle), save + repeated at load (oracle), load only and "
+        "different lists (model only), with and without name lists")
     ctx.assumptions += ASSUMPTIONS + [
         "skip types are given by importable classes; the type list recorded in the file is re-imported by name on load"]
     ctx.cov["trusted_base"] += TRUSTED
@@ -294,6 +415,13 @@ def _run(ctx: Ctx):
         present = names_in(case["spec"], set())
         skipped_present = (set(case["skip_save_names"]) | set(case["skip_load_names"])) & present
         ctx.dist("skip-time/" + case["mode14"])
+        if case.get("lookalike"):
+            ctx.dist("lookalike-cases/types-at-" + case["lookalike"])
+            ctx.dist("lookalike-cases/store/" + cfg["store"])
+            for t in case["skip_load_types"]:
+                ctx.dist("lookalike-load-type/" + t)
+            for k, n in res.get("la_stats", {}).items():
+                ctx.dist("lookalike/" + k, n)
         ctx.dist("names/" + ("prefix-sharing" if case.get("prefix_names") else "disjoint"))
         for where, sk in (("save", case["skip_save_names"]), ("load", case["skip_load_names"])):
             for kd in prefix_survivors(case["spec"], set(sk), []):
